@@ -5,24 +5,24 @@
 cd /verif
 S=/tmp/skt; rm -rf $S; mkdir -p $S/out
 git -C /repo worktree add --detach $S/wt HEAD -q
-cp lean/Verif/Extracted/ChainSkel.lean $S/orig.lean
+cp lean/Verif/Extracted/ChainSkel.lean $S/orig.lean; cp lean/Verif/Extracted/DBSkel.lean $S/origdb.lean
 for d in /verif/seeded/*; do
   id=$(basename $d)
-  grep -q "chain/manager.go" $d/patch.diff 2>/dev/null || continue
+  grep -q "chain/manager.go\|chain/db.go" $d/patch.diff 2>/dev/null || continue
   git -C $S/wt checkout -q -- .
   if ! git -C $S/wt apply $d/patch.diff 2>/dev/null; then echo "$id patch-does-not-apply"; continue; fi
   ./harness/bin/vh srcfacts -repo $S/wt -out $S/out >/dev/null 2>&1
-  if cmp -s $S/out/ChainSkel.lean $S/orig.lean; then echo "$id skeleton-unchanged"; continue; fi
-  cp $S/out/ChainSkel.lean lean/Verif/Extracted/ChainSkel.lean
+  if cmp -s $S/out/ChainSkel.lean $S/orig.lean && cmp -s $S/out/DBSkel.lean $S/origdb.lean; then echo "$id skeleton-unchanged"; continue; fi
+  cp $S/out/ChainSkel.lean lean/Verif/Extracted/ChainSkel.lean; cp $S/out/DBSkel.lean lean/Verif/Extracted/DBSkel.lean
   r=""
-  for m in C01Src C03Src C04Src C19Src; do
+  for m in C01Src C03Src C04Src C19Src C17Src; do
     if ! (cd lean && lake build Verif.Props.$m >$S/b.log 2>&1); then
       r="$r $m($(grep -o 'Verif/Props/[A-Za-z0-9]*.lean:[0-9]*' $S/b.log | sort -u | sed 's/.*://' | tr '\n' ',' ))"
     fi
   done
   echo "$id skeleton-changed broken:[$r ]"
 done
-cp $S/orig.lean lean/Verif/Extracted/ChainSkel.lean
+cp $S/orig.lean lean/Verif/Extracted/ChainSkel.lean; cp $S/origdb.lean lean/Verif/Extracted/DBSkel.lean
 git -C /repo worktree remove --force $S/wt
-(cd lean && lake build Verif.Props.C01Src Verif.Props.C03Src Verif.Props.C04Src Verif.Props.C19Src 2>&1 | tail -1)
+(cd lean && lake build Verif.Props.C01Src Verif.Props.C03Src Verif.Props.C04Src Verif.Props.C19Src Verif.Props.C17Src 2>&1 | tail -1)
 rm -rf $S
